@@ -160,7 +160,8 @@ def emit(case, out):
                       cres(out["r"], lambda ps: clist(ps, cocurve)), cocurve(out["after"]))
     if case["k"] == "join":
         return ctuple(cocurve(out["a"]), cocurve(out["b"]), cres(out["r"], cocurve), cocurve(out["a2"]), cocurve(out["b2"]))
-    return ctuple(cocurve(out["before"]), cql(case["nodes"]), cres(out["r"], cocurve))
+    strict = case.get("strict", case["c"]["W"] is None)
+    return ctuple(cocurve(out["before"]), cql(case["nodes"]), cres(out["r"], cocurve), "true" if strict else "false")
 
 
 def describe(case):
